@@ -95,6 +95,13 @@ pub fn replay(cases: &str, verdicts: &str, table: &str) {
             let inside = ins[j].as_bool().unwrap();
             let g = d.pf(x);
             let pid = json!({"kind": kind, "p": q, "x": x, "ref": fj(refp)});
+            // the point 0 written as -0.0 is the same point: same density, same log-density
+            if x == 0.0 {
+                let gn = d.pf(-0.0);
+                let same = match (g, gn) { (Some(a), Some(b)) => a == b || (a.is_nan() && b.is_nan()), (None, None) => true, _ => false };
+                let samel = d.is_discrete() || match (d.ln_pf(0.0), d.ln_pf(-0.0)) { (Some(a), Some(b)) => a == b || (a.is_nan() && b.is_nan()), (None, None) => true, _ => false };
+                v.check(same && samel, kind, "pdf at -0.0 = pdf at 0", &pid, json!({"at_zero": g.map(fj), "at_negative_zero": gn.map(fj)}));
+            }
             if c["boundary"][j].as_bool().unwrap() {
                 v.check(g.map(|g| g >= 0.0 && !g.is_nan()).unwrap_or(false), kind, "pdf support-end-point", &pid, json!(g.map(fj)));
                 // whatever convention the density follows at an end point, the log-density is its logarithm
@@ -157,6 +164,25 @@ pub fn replay(cases: &str, verdicts: &str, table: &str) {
                     let ok = gcs.map(|g| (g - refc).abs() <= 1.5e-7).unwrap_or(false)
                         && gps.map(|g| if refp < 1e-290 { g <= 1e-280 } else { ((g - refp) / refp).abs() <= 1e-9 }).unwrap_or(false);
                     v.check(ok, kind, if e < 0 { "cdf / pdf tiny-units" } else { "cdf / pdf huge-units" }, &pid, json!({"cdf": gcs.map(fj), "pdf_times_s": gps.map(fj)}));
+                }
+            }
+        }
+        // discrete uniform laws on supports far wider than any table row (N up to 2^62 points): mass 1/N at the ends and in the middle,
+        // 0 outside, mean (a+b)/2, variance (N^2 - 1)/12 - evaluated here in 128-bit integers / f64 from the closed forms of DistMoments
+        if kind == "DiscreteUniform" && q[0] == 0 && q[1] == 1 {
+            for (lo, hi) in [(-(1i64 << 31), (1i64 << 31) - 1), (0i64, 1i64 << 32), (-(1i64 << 40), 1i64 << 40), (-(1i64 << 61), 1i64 << 61), (1024i64, 1i64 << 62)] {
+                let wid = json!({"kind": kind, "lower": lo.to_string(), "upper": hi.to_string()});
+                match D::new(kind, &[lo as f64, hi as f64]) {
+                    Some(w) => {
+                        let nn = (hi as i128 - lo as i128 + 1) as f64;
+                        let (em, ev) = ((lo as i128 + hi as i128) as f64 / 2.0, (nn * nn - 1.0) / 12.0);
+                        let okm = guard(|| (w.mean() - em).abs() <= 1e-12 * em.abs().max(1.0) && (w.var() - ev).abs() <= 1e-12 * ev);
+                        v.check(okm == Some(true), kind, "mean / var wide-support", &wid, json!({"mean": guard(|| w.mean()).map(fj), "var": guard(|| w.var()).map(fj), "expected": [em, ev]}));
+                        let okp = [lo as f64, hi as f64, ((lo as i128 + hi as i128) / 2) as f64].iter().all(|x| w.pf(*x).map(|g| (g * nn - 1.0).abs() <= 1e-12).unwrap_or(false))
+                            && w.pf(lo as f64 - (nn * 1e-3).max(1.0)) == Some(0.0) && w.pf(hi as f64 + (nn * 1e-3).max(1.0)) == Some(0.0);
+                        v.check(okp, kind, "pmf wide-support", &wid, json!(w.pf(lo as f64).map(fj)));
+                    }
+                    None => v.check(false, kind, "constructor wide-support", &wid, json!("panic")),
                 }
             }
         }
